@@ -118,8 +118,8 @@ def rsync_excluded(name, patterns):
     return False
 
 
-def run(ctx):
-    chk = Check('C15', ctx)
+def run(ctx, host=None):
+    chk = host.sub('C15') if host is not None else Check('C15', ctx)
     prog, K, E = ctx.prog, ctx.kinds, ctx.effects
     R1 = chk.rule('C15.R1', 'copy order: loose -> SQLite dump -> copy of the dump -> packs -> everything else', 1)
     R2 = chk.rule('C15.R2', 'the index is copied through the sqlite3 online-backup API (never the live file)', 2)
@@ -403,6 +403,11 @@ def run(ctx):
         chk.ok(R4, BACKUP, norm(isfile[0].test), detail='a missing dump raises BackupError', nontrivial=False)
     else:
         chk.ok(R4, BACKUP, 'dump failure', detail='sqlite3 raises on failure (no explicit is_file check)', nontrivial=False)
+
+    # rules of other properties that are necessary conditions of this one too: the backup is consistent only because packs are append-only and filled in order (C13), as the property itself says
+    if host is None:
+        from ..report import host_modules
+        host_modules(chk, ctx, ['C13'])
 
     return chk.finish(
         explanation=('Static checks of backup_container: an ordering typestate over the copy steps classified by the kind of their source path (discovered from the Container '
